@@ -740,6 +740,13 @@ func (w *World) assumptionList(results []*FuncResult) (assumptions []string, tru
 		if c.Trusted && c.used {
 			add("trusted contract (assumed, not checked): " + name)
 		}
+		if !c.Trusted && c.used {
+			for _, e := range c.Ensures {
+				if e.Assumed {
+					add("assumed postcondition (used by callers, not checked on the body): " + name + ": " + e.Text)
+				}
+			}
+		}
 	}
 	for _, cf := range w.cfiles {
 		for _, a := range cf.Axioms {
@@ -748,7 +755,7 @@ func (w *World) assumptionList(results []*FuncResult) (assumptions []string, tru
 	}
 	for _, r := range results {
 		for _, d := range r.Diags {
-			if strings.Contains(d, "havoc") || strings.Contains(d, "unsupported") || strings.Contains(d, "go statement") {
+			if strings.Contains(d, "havoc") || strings.Contains(d, "unsupported") || strings.Contains(d, "go statement") || strings.Contains(d, "assumed") {
 				add("abstraction: " + d)
 			}
 		}
